@@ -159,12 +159,24 @@ func VPH_tableFootnotes() {
 	var hs HistorySize
 	y := vpMkOID('t', 1)
 	yb := y.Bytes()
-	yb[19] = vp_U8("lastbyte") // the blob's id: equal to the tree's id or not
+	style := []NameStyle{NameStyleHash, NameStyleNone, NameStyleFull}[vp_Choice("style", 3)]
+	if style == NameStyleFull {
+		yb[19] = 0x77 // (concrete: the description text is inspected character by character below)
+	} else {
+		yb[19] = vp_U8("lastbyte") // the blob's id: equal to the tree's id or not
+	}
 	x, _ := git.OIDFromBytes(yb)
 	hs.MaxTreeEntries, hs.MaxTreeEntriesTree = 5000, &Path{OID: y, objectType: "tree"}
 	hs.MaxBlobSize, hs.MaxBlobSizeBlob = 50e6, &Path{OID: x, objectType: "blob"}
 	hs.MaxPathDepth, hs.MaxPathDepthTree = 40, &Path{OID: y, objectType: "tree"}
-	style := []NameStyle{NameStyleHash, NameStyleNone}[vp_Choice("style", 2)]
+	if style == NameStyleFull {
+		// descriptions as the resolver builds them for objects named by a reference; the names hold
+		// characters a terminal-minded sanitiser might touch (ZERO WIDTH NON-JOINER, IDEOGRAPHIC SPACE,
+		// NO-BREAK SPACE) - the description is a revision expression and must be printed as it is (C08)
+		hs.MaxTreeEntriesTree.relativePath = "refs/heads/m:di\u200cr"
+		hs.MaxPathDepthTree.relativePath = "refs/heads/m:di\u200cr"
+		hs.MaxBlobSizeBlob.relativePath = "refs/heads/m:di\u200cr/f\u3000x\u00a0.txt"
+	}
 	out := hs.TableString(nil, 1, style)
 	row := func(name string) string {
 		for _, l := range strings.Split(out, "\n") {
@@ -182,6 +194,13 @@ func VPH_tableFootnotes() {
 		return
 	}
 	vp_Assert(strings.Contains(entries, "[1]") && strings.Contains(depth, "[1]"), "two metrics with the same witness share footnote [1]")
+	if style == NameStyleFull {
+		ty, tx := hs.MaxTreeEntriesTree.String(), hs.MaxBlobSizeBlob.String()
+		vp_Assert(strings.Contains(blob, "[2]"), "numbers follow the order of first citation")
+		vp_Assert(strings.HasSuffix(out, "\n[1]  "+ty+"\n[2]  "+tx+"\n"), "full names: each footnote is the object's description, byte for byte")
+		vp_Reach("full")
+		return
+	}
 	if x == y {
 		vp_Assert(strings.Contains(blob, "[1]"), "identical footnote texts share one number")
 		vp_Assert(strings.HasSuffix(out, "\n[1]  "+y.String()+"\n") && !strings.Contains(out, "[2]"), "one footnote, cited three times")
